@@ -202,6 +202,38 @@ def deep_snapshot(ds: xr.Dataset):
     return ds.copy(deep=True), copy.deepcopy(dict(ds.attrs))
 
 
+def relayout(a: np.ndarray, layout: str) -> np.ndarray:
+    """
+    the same values in another memory layout: "C" (as is), "F" (column-major), "tile" (zero-copy window of a
+    larger C array: unit column stride, row pitch larger than the row), "strided" (every second sample of a larger
+    array in each dimension)
+    """
+    if layout == "C":
+        return a
+    if layout == "F":
+        return np.asfortranarray(a)
+    if layout == "tile":
+        big = np.zeros(a.shape[:-2] + (a.shape[-2] + 3, a.shape[-1] + 5), dtype=a.dtype)
+        v = big[..., 1: 1 + a.shape[-2], 2: 2 + a.shape[-1]]
+        v[...] = a
+        return v
+    if layout == "strided":
+        big = np.zeros(tuple(2 * n for n in a.shape), dtype=a.dtype)
+        v = big[tuple(slice(None, None, 2) for _ in a.shape)]
+        v[...] = a
+        return v
+    raise KeyError(layout)
+
+
+def relayout_dataset(ds: xr.Dataset, layout: str, variables=("im", "msk")) -> xr.Dataset:
+    """in place: the listed variables of the dataset get the memory layout `layout` (values unchanged)"""
+    if layout != "C":
+        for v in variables:
+            if v in ds.data_vars:
+                ds[v].data = relayout(ds[v].data, layout)
+    return ds
+
+
 def same_dataset(a: xr.Dataset, b: xr.Dataset) -> str | None:
     """None if bit-identical (values NaN-aware, dtypes, coords, attrs), else a short description"""
     if set(a.data_vars) != set(b.data_vars):
